@@ -2,6 +2,7 @@ SPECIFICATION Spec
 CONSTANTS
   Mode = "time"
   MaxDepth = 1
+  ChainSize = "quick"
   WithSem = TRUE
   WithText = "none"
   ExcludeDevs = {"AsLiteralUnsignedNil", "TimeStringEquality", "FloatModZeroNaN", "SubMinDurationWraps"}
